@@ -306,6 +306,77 @@ Definition bc_seek (b : block) (p : pos) (key : list N) : sres pos :=
       if is_at p2 then snd (iter_block b (fun q => negb (key_gt key q)) p2)
       else SErr SNoKvp.
 
+(* ---------------------------------------------------------------- BlockCursor::prev *)
+(* cache_restart: the positions of one restart interval, decoded front to back from its restart
+   point up to the next restart point (or the restarts boundary).  The Rust keeps the list of the
+   interval it computed last; the list is a function of (block, restart_idx), so recomputing it
+   is the same. *)
+Fixpoint cache_loop (fuel : nat) (b : block) (ri off limit : N) (key : list N) (acc : list pos)
+  : sres (list pos) :=
+  match fuel with
+  | O => SFuel
+  | S f =>
+      if off <? limit then
+        p <-- extract_key b ri off key ;;
+        match p with
+        | PAt _ _ noff k _ _ => cache_loop f b ri noff limit k (acc ++ [p])
+        | _ => SOk acc
+        end
+      else SOk acc
+  end.
+
+Definition cache_restart (b : block) (ri : N) : sres (list pos) :=
+  off <-- restart_point b ri ;;
+  limit <-- (if ri + 1 <? b_nrest b then restart_point b (ri + 1) else SOk (b_boundary b)) ;;
+  cache_loop (block_fi b) b ri off limit [] [].
+
+Definition pos_noff_is (target : N) (p : pos) : bool :=
+  match p with PAt _ _ noff _ _ _ => noff =? target | _ => false end.
+Definition next_offset_of (b : block) (p : pos) : N :=
+  match p with PFirst => 0 | PLast => b_boundary b | PAt _ _ noff _ _ _ => noff end.
+
+Definition bc_prev (b : block) (p : pos) : sres pos :=
+  match p with
+  | PFirst => SOk PFirst
+  | _ =>
+      let target := match p with PAt _ off _ _ _ _ => off | _ => b_boundary b end in
+      if target =? 0 then SOk PFirst
+      else
+        let cur := match p with PAt ri _ _ _ _ _ => ri | _ => b_nrest b end in
+        back <-- (if b_nrest b <=? cur then SOk true
+                  else rp <-- restart_point b cur ;; SOk (target <=? rp)) ;;
+        ri <-- (if back then (if cur =? 0 then SErr SLogicNegRestart else SOk (cur - 1)) else SOk cur) ;;
+        ps <-- cache_restart b ri ;;
+        match find (pos_noff_is target) (rev ps) with
+        | Some q => SOk q
+        | None =>
+            (* self.seek_restart(restart_idx)?; while self.next_offset() < target { self.next()?; } *)
+            p1 <-- seek_restart b p ri ;;
+            snd (iter_block b (fun q => target <=? next_offset_of b q) p1)
+        end
+  end.
+
+(* `seek_to_last(); loop { prev()?; match key_value() { None => break, Some(kv) => push } }` on one
+   block.  On a well-formed block every prev() moves to a smaller offset; the fuel (four calls per
+   byte) is only reached by a forged block on which prev() makes no progress. *)
+Fixpoint back_loop (fuel : nat) (b : block) (p : pos) (acc : list entry) : list entry * sres pos :=
+  match fuel with
+  | O => (acc, SFuel)
+  | S f =>
+      match bc_prev b p with
+      | SOk q => match pos_entry q with
+                 | Some e => back_loop f b q (acc ++ [e])
+                 | None => (acc, SOk q)
+                 end
+      | SErr e => (acc, SErr e)
+      | SPanic => (acc, SPanic)
+      | SHuge => (acc, SHuge)
+      | SFuel => (acc, SFuel)
+      end
+  end.
+Definition back_block (b : block) : list entry * sres pos :=
+  back_loop (4 * length (b_bytes b) + 4) b PLast [].
+
 (* ---------------------------------------------------------------- Filter (sbbf.rs) *)
 Fixpoint words_of (k : nat) (bs : list N) : list N :=
   match k with
@@ -529,24 +600,64 @@ Section Sst.
     kv <-- cross (t_file t) (fun _ => true) (t_index t) ;;
     SOk (match kv with Some e => fst (fst e) | None => [] end).
 
+  (* ------------------------------------------------------------ backwards *)
+  (* the backward walk of an SstCursor: the blocks in reverse index order (SstCursor::prev loads
+     block meta_idx - 1, positions its cursor at Last, calls prev and moves on when it shows no
+     pair), up to the first error; `ies` is the index REVERSED *)
+  Fixpoint walk_back_blocks (f : list N) (ies : list (list N * bmeta)) : list entry * wend :=
+    match ies with
+    | [] => ([], WEnd)
+    | (_, m) :: rest =>
+        match load_block f m with
+        | SOk b =>
+            let '(es, r) := back_block b in
+            match r with
+            | SOk _ => let '(es2, w) := walk_back_blocks f rest in (es ++ es2, w)
+            | bad => (es, wend_of bad)
+            end
+        | bad => ([], wend_of bad)
+        end
+    end.
+  Definition sst_walk_back (t : sst) : list entry * wend := walk_back_blocks (t_file t) (rev (t_index t)).
+
+  (* the last key of Sst::metadata: seek_to_last(); prev(); key() — one prev per block, from the
+     last block down, until a block shows a pair; MAX_KEY when none does *)
+  Fixpoint cross_back (f : list N) (ies : list (list N * bmeta)) : sres (option entry) :=
+    match ies with
+    | [] => SOk None
+    | (_, m) :: rest =>
+        b <-- load_block f m ;;
+        q <-- bc_prev b PLast ;;
+        if is_at q then SOk (pos_entry q) else cross_back f rest
+    end.
+  Definition MAX_KEY : list N := repeat 255 11.      (* `&[0xffu8; 11]`, a literal in the source *)
+  Definition sst_last_key (t : sst) : sres (list N) :=
+    kv <-- cross_back (t_file t) (rev (t_index t)) ;;
+    SOk (match kv with Some e => fst (fst e) | None => MAX_KEY end).
+
+  (* Sst::metadata's two keys, in its order: an error of the first half is returned first *)
+  Definition sst_meta_keys (t : sst) : sres (list N * list N) :=
+    a <-- sst_first_key t ;; z <-- sst_last_key t ;; SOk (a, z).
+
   (* ------------------------------------------------------------ whole cases *)
   Record sst_outcome := {
     so_open : sres unit;
     so_walk : list entry * wend;
-    so_first : sres (list N);
+    so_back : list entry * wend;
+    so_first : sres (list N * list N);
     so_meta : list N * N * N * N;                (* setsum, smallest, biggest, file size *)
     so_gets : list (sres (option (list N) * bool)) }.
 
   Definition sst_case (f : list N) (queries : list (list N * N)) : sst_outcome :=
     match sst_open f with
     | SOk t =>
-        {| so_open := SOk tt; so_walk := sst_walk t; so_first := sst_first_key t;
+        {| so_open := SOk tt; so_walk := sst_walk t; so_back := sst_walk_back t; so_first := sst_meta_keys t;
            so_meta := (fb_setsum (t_final t), fb_smallest (t_final t), fb_biggest (t_final t), t_size t);
            so_gets := map (fun q => sst_load t (fst q) (snd q)) queries |}
-    | SErr e => {| so_open := SErr e; so_walk := ([], WEnd); so_first := SErr e; so_meta := ([], 0, 0, 0); so_gets := [] |}
-    | SPanic => {| so_open := SPanic; so_walk := ([], WEnd); so_first := SPanic; so_meta := ([], 0, 0, 0); so_gets := [] |}
-    | SHuge => {| so_open := SHuge; so_walk := ([], WEnd); so_first := SHuge; so_meta := ([], 0, 0, 0); so_gets := [] |}
-    | SFuel => {| so_open := SFuel; so_walk := ([], WEnd); so_first := SFuel; so_meta := ([], 0, 0, 0); so_gets := [] |}
+    | SErr e => {| so_open := SErr e; so_walk := ([], WEnd); so_back := ([], WEnd); so_first := SErr e; so_meta := ([], 0, 0, 0); so_gets := [] |}
+    | SPanic => {| so_open := SPanic; so_walk := ([], WEnd); so_back := ([], WEnd); so_first := SPanic; so_meta := ([], 0, 0, 0); so_gets := [] |}
+    | SHuge => {| so_open := SHuge; so_walk := ([], WEnd); so_back := ([], WEnd); so_first := SHuge; so_meta := ([], 0, 0, 0); so_gets := [] |}
+    | SFuel => {| so_open := SFuel; so_walk := ([], WEnd); so_back := ([], WEnd); so_first := SFuel; so_meta := ([], 0, 0, 0); so_gets := [] |}
     end.
 
   (* a block on its own: Block::new, forward walk, Block::load *)
@@ -556,8 +667,9 @@ Section Sst.
     SOk (load_result (pos_entry p2) key).
 
   Definition block_case (bs : list N) (queries : list (list N * N))
-    : sres (list entry * wend * list (sres (option (list N) * bool))) :=
+    : sres (list entry * wend * (list entry * wend) * list (sres (option (list N) * bool))) :=
     b <-- block_new bs ;;
     let '(es, r) := iter_block b is_last PFirst in
-    SOk (es, wend_of r, map (fun q => block_load b (fst q) (snd q)) queries).
+    let '(bs', r') := back_block b in
+    SOk (es, wend_of r, (bs', wend_of r'), map (fun q => block_load b (fst q) (snd q)) queries).
 End Sst.
